@@ -991,20 +991,20 @@ class Unit:
 
     def alias(self, name: Optional[str] = None, symbol: Optional[str] = None) -> None:
         """Adds an alternative name and/or symbol to the unit"""
-        if name:
-            if name in self._by_name and self._by_name[name] is not self:
-                raise ValueError(f"A unit named {name} is already defined")
+        if name and name in self._by_name and self._by_name[name] is not self:
+            raise ValueError(f"A unit named {name} is already defined")
 
+        if symbol and symbol in self._by_symbol and self._by_symbol[symbol] is not self:
+            raise ValueError(f"A unit with symbol {symbol} is already defined")
+
+        if symbol and " " in symbol:
+            raise ValueError(f"{symbol!r} will not be parsable if it has spaces.")
+
+        if name:
             self.names = self.names + (name,)
             self._by_name[name] = self
 
         if symbol:
-            if symbol in self._by_symbol and self._by_symbol[symbol] is not self:
-                raise ValueError(f"A unit with symbol {symbol} is already defined")
-
-            if symbol and " " in symbol:
-                raise ValueError(f"{symbol!r} will not be parsable if it has spaces.")
-
             self.symbols = self.symbols + (symbol,)
             self._by_symbol[symbol] = self
 
